@@ -278,6 +278,10 @@ def run(chk, replay):
             dyn.append((base_items if i % 2 == 0 else [("bare", "p1"), ("named", "K", "v")], i % 3 == 1, gen_out(rng, size, "utf8"), b""))
         dyn.append(([("bare", "p1")], False, b"value", b"NOISE on stderr\n"))
         dyn.append(([("bare", "p1")], False, b" a=b=c \n", b""))
+        # values with '=' (key=value text, base64 padding, leading '='): kept across a retry by a producer that is not re-run
+        dyn.append(([("bare", "p1")], False, b"id=42;sig=c2ln==\n", b""))
+        dyn.append(([("bare", "p1")], False, b"=lead==\n", b""))
+        dyn.append(([("named", "K", "v")], True, b"k=v k2=\"v 2\" ==\n", b""))
         dyn.append(([("bare", "p1")], False, gen_out(rng, 300, "bytes"), b""))
         dyn.append(([("quoted", 'x"')], True, b"v", b""))
         dyn.append(([("quoted", "a=b")], False, b"v", b""))
@@ -435,6 +439,22 @@ def run(chk, replay):
                 chk.violation("C11:output-wrong-in-%s:%s" % (where, ocl),
                               "$OUT at %s is %r (%s bytes), the producer's trimmed stdout is %r (%d bytes)" %
                               (pos, None if got is None else got[:60], "-" if got is None else len(got), exp_out[:60], len(exp_out)), rc)
+        # ---- monitor: consumers whose `command:` names $OUT — blackdagger expands it itself from its process environment
+        #      (run: set by Execute; retry: restored from the record by NewExecutionGraphForRetry)
+        argp = r.get("argprobes", {})
+        for pos in ("run1.adjacentarg", "run2.afterfailarg"):
+            a = argp.get(pos)
+            where = "retry" if pos.startswith("run2") else "run"
+            if a is None:
+                chk.violation("C11:consumer-did-not-run:" + pos.split(".")[1], "no probe at %s (statuses %s / %s)" % (pos, r.get("run1_nodes"), r.get("run2_nodes")), rc)
+                continue
+            got = [unhx(x) for x in a]
+            if got != [exp_out]:
+                chk.violation("C11:output-wrong-in-%s:%s" % (where, ocl),
+                              "`command: … $OUT` at %s received %r, the producer's trimmed stdout is %r (%d bytes)" %
+                              (pos, [g[:60] for g in got], exp_out[:60], len(exp_out)), rc)
+            if oi is not None and dres[oi] is not None and got != [dres[oi]["cap"].encode()]:
+                disagree(cid, "restored-arg:" + pos, [g[:40] for g in got], dres[oi]["cap"][:40], c)
         # ---- monitor: parameters at every position of the run, and of the retry
         posn = seen_positional(want)
         for pos in ALL_POS_1 + RETRY_POS:
@@ -459,7 +479,7 @@ def run(chk, replay):
     chk.stats = stats
     chk.rule = ("static: item lists of the documented syntax (bare / \"quoted\" / NAME=value / NAME=\"quoted\"; values with spaces, tabs, newlines, "
                 "quotes, '=', backslashes, UTF-8) + corpus of witnesses + random raw strings over {\" \\ = space tab newline ` letters} (malformed "
-                "included); dynamic: real agent run + retry with real sh, 8 consumer positions, outputs from a byte grammar at sizes "
+                "included); dynamic: real agent run + retry with real sh, 8 environment consumers + 2 command-line ($OUT expanded by blackdagger) consumers, outputs from a byte grammar at sizes "
                 "0,1,4095,4096,4097,65535,65536,65537,100000 + random; non-trivial = item-based string or dynamic case; distinct = distinct input")
     ss = [c for c in cases if c["mode"] == "static"][:2] + [c for c in cases if c["mode"] == "dyn"][:1]
     chk.samples = [{"case": {k: (v if len(str(v)) < 200 else str(v)[:200] + "…") for k, v in c.items()},
